@@ -34,10 +34,11 @@ def cli_plan(seed, i):
     kb = rng.choice(KB_CHOICES)
     entropy = rng.getrandbits(64)
     verbose_dump = rng.random() < 0.12 and kb <= 8
+    stale = (not verbose_dump) and rng.random() < 0.25   # an earlier, longer output is already there
     clock = (rng.randrange(10**9, 2 * 10**18), rng.choice([1, 1000, 10**6, 10**9]))
     pid = rng.randrange(2, 4_000_000)
     return {"mode": "cli", "i": i, "kb": kb, "entropy": entropy,
-            "verbose_dump": verbose_dump, "clock": clock, "pid": pid,
+            "verbose_dump": verbose_dump, "stale": stale, "clock": clock, "pid": pid,
             "run_seed": run_seed(seed, TAG_CLI, i)}
 
 
@@ -76,6 +77,9 @@ def exec_cli(plan, keep=False):
     else:
         argv = [PENNE, "fuzz", "tokens", "--kb", str(kb), "--out-dir", "out"]
         os.makedirs(os.path.join(wd, "out"))
+        if plan.get("stale"):
+            with open(os.path.join(wd, "out", "fuzzed_tokens.pn"), "wb") as f:
+                f.write(('"stale text of an earlier, longer run \xe2\x82\xac ' + "x" * 90 + '"\n').encode("latin-1") * (kb * 1096 * 3 // 130 + 8))
     r = run_proc(argv, wd, env)
     trace = read_trace(os.path.join(wd, "trace.txt"))
     res["entropy_requests"] = sum(1 for l in trace if l.startswith("R "))
